@@ -50,7 +50,10 @@ fn parse(
         ));
     }
 
-    let version: i32 = tok.read_number().unwrap().as_integer().unwrap();
+    let version: i32 = tok
+        .read_number()?
+        .as_integer()
+        .ok_or_else(|| bad_json("number"))?;
 
     if version > INK_VERSION_CURRENT {
         return Err(StoryError::BadJson(
@@ -119,7 +122,34 @@ enum ArrayElement {
 type RuntimeObjectList = Vec<Rc<dyn RTObject>>;
 type RuntimeObjectListResult = Result<(RuntimeObjectList, Option<ArrayElement>), StoryError>;
 
+/// Containers nested deeper than this are refused (the default loader has the same
+/// limit through serde_json), so that hostile input cannot overflow the stack.
+const MAX_NESTING_DEPTH: usize = 128;
+
+fn bad_json(what: &str) -> StoryError {
+    StoryError::BadJson(format!("Unexpected JSON: {what}"))
+}
+
 fn jtoken_to_runtime_object(
+    tok: &mut JsonTokenizer,
+    value: JsonValue,
+    name: Option<String>,
+) -> Result<ArrayElement, StoryError> {
+    if matches!(value, JsonValue::Array | JsonValue::Object) {
+        if tok.depth >= MAX_NESTING_DEPTH {
+            return Err(bad_json("nesting too deep"));
+        }
+
+        tok.depth += 1;
+        let result = jtoken_to_runtime_object_inner(tok, value, name);
+        tok.depth -= 1;
+        return result;
+    }
+
+    jtoken_to_runtime_object_inner(tok, value, name)
+}
+
+fn jtoken_to_runtime_object_inner(
     tok: &mut JsonTokenizer,
     value: JsonValue,
     name: Option<String>,
@@ -129,10 +159,10 @@ fn jtoken_to_runtime_object(
         JsonValue::Boolean(value) => Ok(ArrayElement::RTObject(Rc::new(Value::new::<bool>(value)))),
         JsonValue::Number(value) => {
             if value.is_integer() {
-                let val: i32 = value.as_integer().unwrap();
+                let val: i32 = value.as_integer().ok_or_else(|| bad_json("integer"))?;
                 Ok(ArrayElement::RTObject(Rc::new(Value::new::<i32>(val))))
             } else {
-                let val: f32 = value.as_float().unwrap();
+                let val: f32 = value.as_float().ok_or_else(|| bad_json("number"))?;
                 Ok(ArrayElement::RTObject(Rc::new(Value::new::<f32>(val))))
             }
         }
@@ -140,7 +170,7 @@ fn jtoken_to_runtime_object(
             let str = value.as_str();
 
             // String value
-            let first_char = str.chars().next().unwrap();
+            let first_char = str.chars().next().ok_or_else(|| bad_json("empty string"))?;
             if first_char == '^' {
                 return Ok(ArrayElement::RTObject(Rc::new(Value::new::<&str>(
                     &str[1..],
@@ -195,13 +225,16 @@ fn jtoken_to_runtime_object(
 
             // // VariablePointerValue
             if prop == "^var" {
-                let variable_name = prop_value.as_str().unwrap();
+                let variable_name = prop_value.as_str().ok_or_else(|| bad_json("string"))?;
                 let mut contex_index = -1;
 
                 if tok.peek()? == ',' {
                     tok.expect(',')?;
                     tok.expect_obj_key("ci")?;
-                    contex_index = tok.read_number().unwrap().as_integer().unwrap();
+                    contex_index = tok
+                        .read_number()?
+                        .as_integer()
+                        .ok_or_else(|| bad_json("number"))?;
                 }
 
                 let var_ptr = Rc::new(Value::new_variable_pointer(variable_name, contex_index));
@@ -233,7 +266,10 @@ fn jtoken_to_runtime_object(
             }
 
             if is_divert {
-                let target = prop_value.as_str().unwrap().to_string();
+                let target = prop_value
+                    .as_str()
+                    .ok_or_else(|| bad_json("string"))?
+                    .to_string();
 
                 let mut var_divert_name: Option<String> = None;
                 let mut target_path: Option<String> = None;
@@ -252,7 +288,8 @@ fn jtoken_to_runtime_object(
                     } else if prop == "c" {
                         conditional = true;
                     } else if prop == "exArgs" {
-                        external_args = prop_value.as_integer().unwrap() as usize;
+                        external_args =
+                            prop_value.as_integer().ok_or_else(|| bad_json("integer"))? as usize;
                     }
                 }
 
@@ -275,12 +312,16 @@ fn jtoken_to_runtime_object(
             // Choice
             if prop == "*" {
                 let mut flags = 0;
-                let path_string_on_choice = prop_value.as_str().unwrap();
+                let path_string_on_choice =
+                    prop_value.as_str().ok_or_else(|| bad_json("string"))?;
 
                 if tok.peek()? == ',' {
                     tok.expect(',')?;
                     tok.expect_obj_key("flg")?;
-                    flags = tok.read_number().unwrap().as_integer().unwrap();
+                    flags = tok
+                        .read_number()?
+                        .as_integer()
+                        .ok_or_else(|| bad_json("number"))?;
                 }
 
                 tok.expect('}')?;
@@ -294,14 +335,16 @@ fn jtoken_to_runtime_object(
             if prop == "VAR?" {
                 tok.expect('}')?;
                 return Ok(ArrayElement::RTObject(Rc::new(VariableReference::new(
-                    prop_value.as_str().unwrap(),
+                    prop_value.as_str().ok_or_else(|| bad_json("string"))?,
                 ))));
             }
 
             if prop == "CNT?" {
                 tok.expect('}')?;
                 return Ok(ArrayElement::RTObject(Rc::new(
-                    VariableReference::from_path_for_count(prop_value.as_str().unwrap()),
+                    VariableReference::from_path_for_count(
+                        prop_value.as_str().ok_or_else(|| bad_json("string"))?,
+                    ),
                 )));
             }
 
@@ -318,7 +361,7 @@ fn jtoken_to_runtime_object(
             }
 
             if is_var_ass {
-                let var_name = prop_value.as_str().unwrap();
+                let var_name = prop_value.as_str().ok_or_else(|| bad_json("string"))?;
                 let mut is_new_decl = true;
 
                 if tok.peek()? == ',' {
@@ -341,7 +384,7 @@ fn jtoken_to_runtime_object(
             if prop == "#" {
                 tok.expect('}')?;
                 return Ok(ArrayElement::RTObject(Rc::new(Tag::new(
-                    prop_value.as_str().unwrap(),
+                    prop_value.as_str().ok_or_else(|| bad_json("string"))?,
                 ))));
             }
 
@@ -385,8 +428,8 @@ fn jtoken_to_runtime_object(
 
             // Used when serialising save state only
             if prop == "originalChoicePath" {
-                todo!("originalChoicePath");
-                // return jobject_to_choice(obj); // TODO
+                // Choices only appear in saved states, which this loader does not read.
+                return Err(bad_json("a saved choice inside a story document"));
             }
 
             // Last Element
@@ -399,9 +442,9 @@ fn jtoken_to_runtime_object(
 
             loop {
                 if p == "#f" {
-                    flags = pv.as_integer().unwrap();
+                    flags = pv.as_integer().ok_or_else(|| bad_json("integer"))?;
                 } else if p == "#n" {
-                    name = Some(pv.as_str().unwrap().to_string());
+                    name = Some(pv.as_str().ok_or_else(|| bad_json("string"))?.to_string());
                 } else {
                     let named_content_item = jtoken_to_runtime_object(tok, pv, Some(p.clone()))?;
 
@@ -417,7 +460,7 @@ fn jtoken_to_runtime_object(
                     let named_sub_container = named_content_item
                         .into_any()
                         .downcast::<Container>()
-                        .unwrap();
+                        .map_err(|_| bad_json("named content that is not a container"))?;
 
                     named_only_content.insert(p, named_sub_container);
                 }
@@ -447,7 +490,10 @@ fn parse_list(tok: &mut JsonTokenizer) -> Result<HashMap<String, i32>, StoryErro
 
     while tok.peek()? != '}' {
         let key = tok.read_obj_key()?;
-        let value = tok.read_number().unwrap().as_integer().unwrap();
+        let value = tok
+            .read_number()?
+            .as_integer()
+            .ok_or_else(|| bad_json("number"))?;
         list_content.insert(key, value);
 
         if tok.peek()? != '}' {
